@@ -297,6 +297,19 @@ def main():
         c.padding = api.NpuPadding(top=0, left=0, bottom=0, right=0)
         c.block_config = api.NpuShape3D(height=8, width=2, depth=8)
         out.append((Accelerator.Ethos_U65_256, [p, c], "fixed:two-depth-block-producer/REDUCE_SUM-consumer"))
+        # consumer reads, as NHWC, memory the producer writes as NHCWB16 (same shape, same tiles)
+        q = api.NpuQuantization(scale_f32=0.0625, zero_point=0)
+        a_ = c04_gen.Buf(2, 0x4000, 12, 9, 32, api.NpuDataType.INT16, api.NpuLayout.NHWC)
+        w_ = c04_gen.Buf(2, 16, 12, 9, 32, api.NpuDataType.INT16, api.NpuLayout.NHCWB16)
+        r_ = c04_gen.Buf(2, 16, 12, 9, 32, api.NpuDataType.INT16, api.NpuLayout.NHWC)
+        o_ = c04_gen.Buf(2, 0x8000, 12, 9, 32, api.NpuDataType.INT16, api.NpuLayout.NHWC)
+        p = api.NpuElementWiseOperation(api.NpuElementWiseOp.ABS)
+        p.ifm, p.ofm = c04_gen.fm_from_buf(api, a_, q), c04_gen.fm_from_buf(api, w_, q)
+        p.block_config = api.NpuShape3D(height=6, width=8, depth=32)
+        c = api.NpuElementWiseOperation(api.NpuElementWiseOp.ABS)
+        c.ifm, c.ofm = c04_gen.fm_from_buf(api, r_, q), c04_gen.fm_from_buf(api, o_, q)
+        c.block_config = api.NpuShape3D(height=4, width=6, depth=16)
+        out.append((Accelerator.Ethos_U55_256, [p, c], "fixed:NHCWB16-producer/NHWC-consumer-same-tiles"))
         return out
 
     lists = fixed_lists()
